@@ -87,6 +87,9 @@ func runC13(c *Ctx) {
 			}
 			for _, n := range ns {
 				items := gcsItems(c, n, 0x11)
+				if n >= 1 && (n+p+mi)%3 == 0 { // the empty byte string as a member
+					items[0] = []byte{}
+				}
 				if n >= 3 && (n+p)%4 == 0 { // a multiset: repeated elements
 					items[n-1] = items[0]
 					items[n-2] = items[1]
